@@ -261,6 +261,24 @@ theorem joined_reset_single_char (E : Env) (c : JoinedCfg) (s : JoinedState) (ch
       joinedValue c s' = joinedValue c s :=
   joined_reset_partial E c s (splitStable_single_char E.T c s ch hsep hsp hne h) hprune hset
 
+/-- the hypotheses of `joined_reset_single_char` hold for `JoinedString(['a', 'b c'])` -/
+example :
+    let c : JoinedCfg := ⟨[','], .static, true, .string true⟩
+    let s : JoinedState := [⟨.str ['a'], .str ['a'], ['a']⟩, ⟨.str "b c".toList, .str "b c".toList, "b c".toList⟩]
+    s ≠ [] ∧ (∀ st ∈ s, ',' ∉ st.u) ∧ NoEmptyTextUnderPrune c s ∧ Settled plainEnv c.member s := by
+  refine ⟨by decide, by decide, ?_, ?_⟩
+  · intro _ st hst
+    simp only [List.mem_cons, List.mem_nil_iff, or_false] at hst
+    rcases hst with rfl | rfl <;> decide
+  · intro st hst
+    simp only [List.mem_cons, List.mem_nil_iff, or_false] at hst
+    rcases hst with rfl | rfl <;> exact string_settled plainEnv true _ (fun _ => by decide)
+
+example : MembersFit Flatland.Generated.C04.pyTables (.int 2020) (.int 2) (.int 30) := by
+  intro v hv i hi
+  simp only [List.mem_cons, List.mem_nil_iff, or_false] at hv
+  rcases hv with rfl | rfl | rfl <;> (cases hi; exact intFits_small _ pyTables_ok _ (by decide))
+
 /-! ### JoinedString.value, MultiValue.u/value -/
 
 /-- **joined_value** — in every state the value (and `.u`) is the separator-join of the members' texts -/
